@@ -18,8 +18,11 @@ COQ = os.path.join(ROOT, "coq")
 sys.path.insert(0, os.path.join(ROOT, "tools"))
 from props import PROPS  # noqa: E402
 
+# The registered commands always check /repo.  VERIF_REPO=<dir> points the harness at a
+# scratch copy instead (used only to try seeded changes without touching /repo).
+REPO = os.environ.get("VERIF_REPO", "/repo")
 GOENV = dict(os.environ, GOFLAGS="-mod=mod", GOPROXY="off", GOSUMDB="off",
-             GOTOOLCHAIN="local", TZ="UTC", CGO_ENABLED="0")
+             GOTOOLCHAIN="local", TZ="UTC", CGO_ENABLED="0", WH_REPO=REPO)
 
 FORBIDDEN = re.compile(
     r"\b(Admitted|admit|Axiom|Axioms|Parameter|Parameters|Conjecture|Conjectures|"
@@ -66,8 +69,14 @@ def write_if_changed(path, content):
 # ----------------------------------------------------------------------------
 def build_harness(log):
     h = os.path.join(ROOT, "harness")
-    shutil.copyfile("/repo/go.sum", os.path.join(h, "go.sum"))
-    rc, out, dt = sh(["go", "build", "-tags", "verif", "-o", "bin/wh", "./cmd/wh"], cwd=h, env=GOENV, timeout=600)
+    shutil.copyfile(os.path.join(REPO, "go.sum"), os.path.join(h, "go.sum"))
+    cmd = ["go", "build", "-tags", "verif", "-o", "bin/wh", "./cmd/wh"]
+    if REPO != "/repo":
+        mod = open(os.path.join(h, "go.mod")).read().replace("=> /repo", "=> " + REPO)
+        open(os.path.join(h, "go.alt.mod"), "w").write(mod)
+        shutil.copyfile(os.path.join(REPO, "go.sum"), os.path.join(h, "go.alt.sum"))
+        cmd = ["go", "build", "-modfile=go.alt.mod", "-tags", "verif", "-o", "bin/wh", "./cmd/wh"]
+    rc, out, dt = sh(cmd, cwd=h, env=GOENV, timeout=600)
     log["harness_build_s"] = round(dt, 1)
     if rc != 0:
         return False, out
